@@ -153,16 +153,17 @@ refuters = {p.name: refute_native for p in proofs}
 # runs cb on a range of n slots, CircularBufferRange::ForEach(f) calls f once per slot (shim loop with its own invariant), the exporter's Export
 # records the size it is given. Histories with a ForceFlush ticket are excluded here (known finding F6).
 FULL_PRE = pre_c + r"""
-unsigned long g_vec_size, g_push_calls, g_export_calls, g_export_bad, g_export_last, g_notify_calls, g_max_batch;
-static void xc_havoc_full(void) { unsigned long a, b; g_vec_size = a; g_push_calls = b; g_export_calls = 0; g_export_bad = 0; g_export_last = 0; g_notify_calls = 0; }
+unsigned long g_vec_size, g_push_calls, g_export_calls, g_export_bad, g_export_last, g_notify_calls, g_max_batch, g_exported_total;
+typedef struct xc_spanv { unsigned long n; } xc_spanv;          /* nostd::span over the batch: its length */
+static void xc_havoc_full(void) { unsigned long a, b; g_vec_size = a; g_push_calls = b; g_export_calls = 0; g_export_bad = 0; g_export_last = 0; g_notify_calls = 0; g_exported_total = 0; }
 typedef struct xc_vec { char xc_unused; } xc_vec;           /* the batch vector: its length is the ghost g_vec_size */
 typedef struct xc_range { unsigned long n; } xc_range;       /* CircularBufferRange: n slots */
 typedef struct xc_slot { char xc_unused; } xc_slot;          /* AtomicUniquePtr<Recordable>: the inner callback only moves it on */
 static xc_vec xc_vec_new(void) { xc_vec v; g_vec_size = 0; v.xc_unused = 0; return v; }
 static void xc_vec_push_back(void) { g_vec_size++; g_push_calls++; }
-static void xc_exporter_Export(unsigned long size) { g_export_calls++; g_export_last = size; if (size == 0 || size > g_max_batch) g_export_bad = 1; }
+static int xc_exporter_Export(unsigned long size) { int result; g_export_calls++; g_export_last = size; g_exported_total += size; if (size == 0 || size > g_max_batch) g_export_bad = 1; return result; }      /* any ExportResult */
 static void xc_NotifyCompletion(void) { g_notify_calls++; }
-#define FULL_GHOSTS g_vec_size, g_push_calls, g_export_calls, g_export_bad, g_export_last, g_notify_calls
+#define FULL_GHOSTS g_vec_size, g_push_calls, g_export_calls, g_export_bad, g_export_last, g_notify_calls, g_exported_total
 """
 
 
@@ -171,6 +172,8 @@ def _full_vec_type(em, base, targs, name):
         return common.CT("xc_vec")
     if base.endswith("CircularBufferRange"):
         return common.CT("xc_range")
+    if base in ("nostd::span", "span"):
+        return common.CT("xc_spanv")
     if base.endswith("AtomicUniquePtr"):
         return common.CT("xc_slot")
     if base == "std::unique_ptr" and targs and targs[0].strip().split("::")[-1] in ("Recordable",):
@@ -226,16 +229,20 @@ def _configure_full(cfg):
     for q in ("AtomicUniquePtr<sdk::trace::Recordable>::Swap", "AtomicUniquePtr<sdk::logs::Recordable>::Swap", "AtomicUniquePtr::Swap"):
         cfg.ext_q[q] = lambda em, node, recv, args: "(void)0"
 
+    def _span_ctor(em, node, args):
+        real = [a for a in args if a.get("kind") != "CXXDefaultArgExpr"]
+        if len(real) == 2:
+            return "((xc_spanv){%s})" % em.expr(real[1])          # span(ptr, size)
+        if len(real) == 1:
+            return em.expr(real[0])
+        return "((xc_spanv){0})"
+    cfg.ctor_ext["nostd::span"] = _span_ctor
+    for f in ("yield", "sleep_for", "sleep_until"):
+        cfg.ext[f] = lambda em, node, recv, args: "(void)0"      # std::this_thread: no effect on the data
+
     def _exp(em, node, recv, args):
-        # exporter_->Export(nostd::span<...>(ptr, size)): the size expression of the span
-        s = em._strip_all(args[0])
-        while s.get("kind") in ("CXXFunctionalCastExpr", "CXXBindTemporaryExpr", "MaterializeTemporaryExpr", "ImplicitCastExpr", "CXXConstructExpr", "CXXTemporaryObjectExpr") and \
-                len([a for a in s.get("inner", []) if a.get("kind") != "CXXDefaultArgExpr"]) == 1:
-            s = em._strip_all(s["inner"][0])
-        inner = [a for a in s.get("inner", []) if a.get("kind") != "CXXDefaultArgExpr"]
-        if len(inner) != 2:
-            raise common.ExtractionError("exporter Export argument is not span(ptr, size): %s" % s.get("kind"))
-        return "xc_exporter_Export(%s)" % em.expr(inner[1])
+        # exporter_->Export(nostd::span<...>): the number of records in the span
+        return "xc_exporter_Export((%s).n)" % em.expr(args[0])
     for exp in ("SpanExporter", "LogRecordExporter"):
         cfg.ext_q[exp + "::Export"] = _exp
     for cls in ("BatchSpanProcessor", "BatchLogRecordProcessor"):
@@ -254,9 +261,12 @@ def full_contract():
         "__CPROVER_requires(" + FULL_REQ + ")\n"
         "__CPROVER_assigns(FULL_GHOSTS, self->buffer_.tail_)\n"
         # every batch handed to the exporter during this Export() is non-empty and within the bound; the queue is drained
-        "__CPROVER_ensures(g_export_bad == 0 && self->buffer_.tail_ == self->buffer_.head_)\n",
+        "__CPROVER_ensures(g_export_bad == 0 && self->buffer_.tail_ == self->buffer_.head_)\n"
+        # every record taken from the queue is handed to the exporter exactly once: as many records exported as consumed
+        "__CPROVER_ensures(g_exported_total == self->buffer_.head_ - __CPROVER_old(self->buffer_.tail_))\n",
         "loops": {1: "__CPROVER_assigns(FULL_GHOSTS, self->buffer_.tail_)\n"
                      "__CPROVER_loop_invariant(g_export_bad == 0 && self->buffer_.tail_ <= self->buffer_.head_ && self->buffer_.tail_ >= __CPROVER_loop_entry(self->buffer_.tail_))\n"
+                     "__CPROVER_loop_invariant(g_exported_total == self->buffer_.tail_ - __CPROVER_loop_entry(self->buffer_.tail_))\n"
                      "__CPROVER_decreases(self->buffer_.head_ - self->buffer_.tail_ + 1)\n"}}
 
 
@@ -272,3 +282,84 @@ for _p in _pfull:
     _p.own_config = True
     refuters[_p.name] = refute_native
 proofs += _pfull
+
+
+# ---------------------------------------------------------------------------------------------
+# The simple processors (one Export per record): "Export is never invoked while a previous Export on it is still running" rests on a lock discipline:
+# the exporter's Export is called only while the processor's lock is held (std::lock_guard: acquired before, held throughout), exactly once per record.
+# With the mutual exclusion of the lock itself (SpinLockMutex, ./check C11: sequential contracts only) this is the one-call-at-a-time guarantee.
+SIMPLE_PRE = r"""
+int g_held; unsigned long g_export_calls, g_unlocked_export, g_lock_calls;
+typedef struct xc_lk { int owns; } xc_lk;                         /* std::lock_guard / std::unique_lock: does it own the mutex */
+typedef struct xc_spanv { unsigned long n; } xc_spanv;
+static void xc_havoc_ghosts(void) { g_held = 0; g_export_calls = 0; g_unlocked_export = 0; g_lock_calls = 0; }
+static xc_lk xc_lock_acquire(void) { xc_lk l; g_lock_calls++; g_held = 1; l.owns = 1; return l; }          /* lock(): returns holding the mutex */
+static xc_lk xc_lock_try_new(void) { xc_lk l; int got; g_lock_calls++; l.owns = got != 0; if (l.owns) g_held = 1; return l; }     /* try_to_lock: may fail */
+static bool xc_lock_try(xc_lk *l) { int got; if (l->owns) return true; l->owns = got != 0; if (l->owns) g_held = 1; return l->owns != 0; }
+static void xc_lock_lock(xc_lk *l) { l->owns = 1; g_held = 1; }
+static void xc_lock_unlock(xc_lk *l) { l->owns = 0; g_held = 0; }
+static int xc_exporter_Export(unsigned long n) { int r; g_export_calls++; if (!g_held) g_unlocked_export = 1; return r; }
+"""
+
+
+def _simple_types(em, base, targs, name):
+    if base in ("std::lock_guard", "std::unique_lock", "std::scoped_lock"):
+        return common.CT("xc_lk")
+    if base in ("nostd::span", "span"):
+        return common.CT("xc_spanv")
+    if base == "std::unique_ptr" and targs and targs[0].strip().split("::")[-1] in ("Recordable", "SpanExporter", "LogRecordExporter"):
+        return common.CT("xc_handle")
+    return None
+
+
+def _configure_simple(cfg):
+    common.sdk_trace_boundary(cfg)
+    common.chrono_boundary(cfg)
+    cfg.type_handlers.insert(0, _simple_types)
+    cfg.opaque_records["common::SpinLockMutex"] = "xc_opaque"
+
+    def _lk_ctor(em, node, args):
+        real = [a for a in args if a.get("kind") != "CXXDefaultArgExpr"]
+        if len(real) >= 2:
+            tag = (real[1].get("type", {}).get("qualType", "") + str(real[1]))
+            if "try_to_lock" in tag:
+                return "xc_lock_try_new()"
+            if "defer_lock" in tag:
+                return "((xc_lk){0})"
+        return "xc_lock_acquire()"
+    for k in ("std::lock_guard", "std::unique_lock", "std::scoped_lock"):
+        cfg.ctor_ext[k] = _lk_ctor
+        cfg.ext_methods[k + "::owns_lock"] = lambda em, recv, args, n: "(%s.owns != 0)" % recv
+        cfg.ext_methods[k + "::operator bool"] = lambda em, recv, args, n: "(%s.owns != 0)" % recv
+        cfg.ext_methods[k + "::try_lock"] = lambda em, recv, args, n: "xc_lock_try(&(%s))" % recv
+        cfg.ext_methods[k + "::lock"] = lambda em, recv, args, n: "xc_lock_lock(&(%s))" % recv
+        cfg.ext_methods[k + "::unlock"] = lambda em, recv, args, n: "xc_lock_unlock(&(%s))" % recv
+    cfg.ctor_ext["nostd::span"] = lambda em, node, args: "((xc_spanv){%s})" % (em.expr([a for a in args if a.get("kind") != "CXXDefaultArgExpr"][1]) if len([a for a in args if a.get("kind") != "CXXDefaultArgExpr"]) == 2 else "0")
+    for exp in ("SpanExporter", "LogRecordExporter"):
+        cfg.ext_q[exp + "::Export"] = lambda em, node, recv, args: "xc_exporter_Export((%s).n)" % em.expr(args[0])
+    for f in ("yield", "sleep_for", "sleep_until"):
+        cfg.ext[f] = lambda em, node, recv, args: "(void)0"
+    cfg.ext_methods["std::unique_ptr::operator->"] = lambda em, recv, args, n: recv
+
+
+def simple_contract(T, param):
+    return {"pre": "__CPROVER_requires(__CPROVER_is_fresh(self, sizeof(%s)) && __CPROVER_is_fresh(%s, sizeof(*%s)))\n" % (T, param, param) +
+            "__CPROVER_assigns(g_held, g_export_calls, g_unlocked_export, g_lock_calls)\n"
+            # the record is exported exactly once, and only while the processor's lock is held
+            "__CPROVER_ensures(g_export_calls == 1 && g_unlocked_export == 0)\n"}
+
+
+contracts["SimpleLogRecordProcessor_OnEmit"] = simple_contract("SimpleLogRecordProcessor", "record")
+contracts["SimpleSpanProcessor_OnEnd"] = simple_contract("SimpleSpanProcessor", "span")
+_psimple = [Proof("SimpleLog_OnEmit_locked", [("SimpleLogRecordProcessor::OnEmit", 1)], enforce="SimpleLogRecordProcessor_OnEmit", timeout=300,
+                  desc="the exporter's Export is called exactly once per record and only while the processor's lock is held"),
+            Proof("SimpleSpan_OnEnd_locked", [("SimpleSpanProcessor::OnEnd", 1)], enforce="SimpleSpanProcessor_OnEnd", timeout=300, desc="the same for spans")]
+_psimple[0].tu = ("tu_simple_log", '#include "%s/sdk/src/logs/simple_log_record_processor.cc"\n' % R.core.REPO)
+_psimple[1].tu = ("tu_simple_span", '#include "%s/sdk/include/opentelemetry/sdk/trace/simple_processor.h"\n' % R.core.REPO)
+for _p in _psimple:
+    _p.pre_c = SIMPLE_PRE
+    _p.post_struct_c = ""
+    _p.configure = _configure_simple
+    _p.own_config = True
+    _p.new_loop_unwind = 1100     # a retry loop that gives up after a bounded number of attempts must be followed to its end
+proofs += _psimple
